@@ -28,7 +28,8 @@ from harness import checklib, loader, tlc  # noqa: E402
 
 CLAUSES = ("P_C14_OnePerDescendant", "P_C14_DestIsRealPath", "P_C14_SourceIsOldPrefixPlusSameRelativePath",
            "P_C14_Flavour", "P_C14_ParentBeforeChild", "P_C14_AllSynthetic")
-MODES = ("rel-str", "rel-bytes", "abs-str", "abs-bytes")
+# "-slash": both directory arguments are spelled with a trailing separator (a spelling the generators handle)
+MODES = ("rel-str", "rel-bytes", "abs-str", "abs-bytes", "rel-str-slash", "abs-bytes-slash")
 CLS = {"DirMovedEvent": "DirMoved", "FileMovedEvent": "FileMoved", "DirCreatedEvent": "DirCreated",
        "FileCreatedEvent": "FileCreated"}
 
@@ -107,7 +108,7 @@ class _Proj:
         self.bnames = {os.fsencode(k): v for k, v in names.items()}
 
     def path(self, p, mode):
-        absolute, kind = mode.split("-")
+        absolute, kind = mode.split("-")[:2]
         if isinstance(p, (str, bytes)) and len(p) == 0:
             return []  # the empty path ("" is also what a bytes caller gets for "no path")
         if kind == "str":
@@ -135,7 +136,9 @@ def _spell(root, seq, mode, real):
         s = os.sep.join(real[n] for n in seq)
         if mode.startswith("abs"):
             s = os.path.join(root, s)
-    return os.fsencode(s) if mode.endswith("bytes") else s
+        if mode.endswith("-slash"):
+            s += os.sep
+    return os.fsencode(s) if "-bytes" in mode else s
 
 
 def _materialise(root, dst, tree, real):
